@@ -8,6 +8,7 @@ CONSTANTS NT,      \* torrents (each with one tier)
           BO,      \* back-off after an announce without reply (>= CMIN)
           IVALS,   \* interval / min-interval values of ok replies (0 = absent)
           ASIS,    \* subset of {"gap","tier","cancel","stopmember"}: behaviour of the unchanged tree
+          CIDS,    \* connection ids a UDP tracker may hand out (0 is a legal id)
           ENV      \* enabled environment actions: subset of {"need","complete","flip","expire","stop"}
 
 IvFull  == {-1, 0, 1, 2, 2147483647}
@@ -19,7 +20,7 @@ MCCfg == [ ann |-> [t \in 1 .. NT |-> [t |-> t, ks |-> [i \in 1 .. NM |-> i]]],
            tor |-> [t \in 1 .. NT |-> [ih |-> "ih", pid |-> "pid", port |-> 1, total |-> 1, left0 |-> 1, dmax |-> 1, umax |-> 0]],
            trk |-> [k \in 1 .. NM |-> [udp |-> UDP, dest |-> k, up0 |-> TRUE]],
            cmin |-> CMIN, unit |-> 1, gslack |-> 0, bo |-> BO, lat |-> 0, slk |-> 0, timed |-> FALSE, gapk |-> 1,
-           asis |-> ASIS, ivals |-> IVALS ]
+           asis |-> ASIS, ivals |-> IVALS, cids |-> CIDS ]
 
 MCInit ==
     /\ cfg = MCCfg
@@ -48,6 +49,7 @@ MCNext ==
     \/ ("need" \in ENV /\ Calm /\ \E t \in T, v \in BOOLEAN : Need(t, v))
     \/ \E r \in rq : Answer(r) \/ ConnErr(r) \/ SideEnd(r)
     \/ \E k \in K : ConnStep(k)
+    \/ \E r \in rq : Retransmit(r)
     \/ ("expire" \in ENV /\ Calm /\ \E k \in K : ConnExpire(k))
     \/ ("flip" \in ENV /\ Calm /\ \E k \in K : Flip(k))
 
@@ -59,7 +61,7 @@ Fair ==
 
 MCSpec == MCInit /\ [][MCNext]_vars /\ Fair
 
-Inv == NoViolation /\ NoLostAnnounce /\ TimerArmed /\ OneRequest
+Inv == NoViolation /\ NoLostAnnounce /\ TimerArmed /\ OneRequest /\ NoParked
 InvFixed == Inv /\ TierIndexOK        \* the repaired tier stores a wrapped index
 
 \* @obligation C16.live  while a torrent keeps running it keeps announcing
